@@ -785,9 +785,16 @@ def rebuild_rule(ctx, rep, cls, field, rule, what):
     seen = set()
     fns = [m for c in cls.mro() if isinstance(c, ClassInfo) for m in c.methods.values() if cls.lookup(m.name)[1] is m and m.name != "__init__"]
     fns += [f for f in ctx.prog.functions.values() if f.owner is None and f.parent is None and f.module is cls.module]
+    inserts = {}
     for m in fns:
         ps, it = ctx.paths(m, cls if m.owner is not None else None, depth=2, inline=lambda callee, ev, path: callee.key in own and callee.name != "__init__")
         for p in ps:
+            for e in p.calls():
+                r = q.recv(e)
+                if q.call_name(e) in ("append", "add", "insert", "extend", "appendleft") and isinstance(r, tuple) and r[0] == "attr" and r[2] == field and it.type_of(r[1], p) in (None, "C:" + cls.key):
+                    held = any(isinstance(l[1], tuple) and l[1][0] == "attr" and l[1][1] == r[1] and l[1][2] in locks for l in e.locks)
+                    k = (e.fn.qualname, e.node.lineno)
+                    inserts[k] = (inserts.get(k, (True,))[0] and held, e)
             for s_ in p.evs("store"):
                 t = s_.d["target"]
                 if not (isinstance(t, tuple) and t[0] == "attr" and t[2] == field and it.type_of(t[1], p) in (None, "C:" + cls.key)):
@@ -806,6 +813,10 @@ def rebuild_rule(ctx, rep, cls, field, rule, what):
                 ok = any(held_throughout(p, lk, walks[-1], s_) for lk in L)
                 seen.add((key, s_.node))
                 rep.ob(rule, key, ok, "the list is walked and the result stored back without one continuous hold of the lock: an entry appended by another thread in between is dropped", where_of_(m, s_), None)
+    if n:
+        # ... which only helps if the other side -- whoever inserts into the list -- takes the same lock
+        for (fn, _ln), (held, e) in sorted(inserts.items()):
+            rep.ob(rule, "%s: insertion into %s under the lock that guards its rebuild" % (fn, what), held, "%s() on the list without its lock: the insertion can land between the walk and the store of a concurrent rebuild, and the new entry is dropped" % q.call_name(e), where_of_(e.fn, e), None)
     return n
 
 
